@@ -1,0 +1,134 @@
+//go:build verif
+
+package larking
+
+// Verification hooks. Compiled only with the "verif" build tag; they add
+// accessors for external checkers and change no existing behaviour.
+
+import (
+	"fmt"
+	"sort"
+	"strings"
+
+	"google.golang.org/grpc"
+	"google.golang.org/protobuf/reflect/protoreflect"
+)
+
+// VerifRegisterService is RegisterService returning the error instead of
+// calling log.Fatalf.
+func (m *Mux) VerifRegisterService(sd *grpc.ServiceDesc, ss interface{}) error {
+	return m.registerService(sd, ss)
+}
+
+// VerifSnapshot returns the routing state currently published to readers.
+// The result is opaque; pass it to VerifFingerprint.
+func (m *Mux) VerifSnapshot() any {
+	s := m.loadState()
+	if s == nil {
+		return nil
+	}
+	return s
+}
+
+// VerifHTTPBodyCodec returns the built-in google.api.HttpBody stream codec.
+func VerifHTTPBodyCodec() StreamCodec { return codecHTTPBody{} }
+
+// VerifFingerprint returns a deep structural description of a snapshot taken
+// with VerifSnapshot. Two calls on the same snapshot return equal strings
+// iff nothing reachable from it was mutated in between.
+func VerifFingerprint(snap any) string {
+	s, _ := snap.(*state)
+	if s == nil {
+		return "<nil>"
+	}
+	var b strings.Builder
+	b.WriteString("path:")
+	verifPath(&b, s.path)
+
+	names := make([]string, 0, len(s.handlers))
+	for k := range s.handlers {
+		names = append(names, k)
+	}
+	sort.Strings(names)
+	b.WriteString("\nhandlers:")
+	for _, k := range names {
+		fmt.Fprintf(&b, "\n %s=[", k)
+		for _, h := range s.handlers[k] {
+			fmt.Fprintf(&b, "%p:%s:%s ", h, h.method, h.desc.FullName())
+		}
+		b.WriteString("]")
+	}
+
+	var conns []string
+	for cc, cl := range s.conns {
+		var sb strings.Builder
+		fmt.Fprintf(&sb, "%p hash=%x [", cc, cl.fdHash)
+		for _, h := range cl.handlers {
+			fmt.Fprintf(&sb, "%p ", h)
+		}
+		sb.WriteString("]")
+		conns = append(conns, sb.String())
+	}
+	sort.Strings(conns)
+	b.WriteString("\nconns:")
+	for _, c := range conns {
+		b.WriteString("\n " + c)
+	}
+	return b.String()
+}
+
+func verifFields(fds []protoreflect.FieldDescriptor) string {
+	var s []string
+	for _, fd := range fds {
+		s = append(s, string(fd.FullName()))
+	}
+	return strings.Join(s, ">")
+}
+
+func verifMethod(b *strings.Builder, m *method) {
+	if m == nil {
+		b.WriteString("nil")
+		return
+	}
+	fmt.Fprintf(b, "%p{%s %s body=%s resp=%s hasBody=%v vars=[", m, m.name, m.desc.FullName(),
+		verifFields(m.body), verifFields(m.resp), m.hasBody)
+	for _, v := range m.vars {
+		b.WriteString(verifFields(v) + ";")
+	}
+	b.WriteString("]}")
+}
+
+func verifPath(b *strings.Builder, p *path) {
+	if p == nil {
+		b.WriteString("nil")
+		return
+	}
+	b.WriteString("{")
+	keys := make([]string, 0, len(p.segments))
+	for k := range p.segments {
+		keys = append(keys, k)
+	}
+	sort.Strings(keys)
+	for _, k := range keys {
+		fmt.Fprintf(b, "seg %q:", k)
+		verifPath(b, p.segments[k])
+	}
+	for i, v := range p.variables {
+		fmt.Fprintf(b, "var#%d %q toks=%d:", i, v.name, len(v.toks))
+		verifPath(b, v.next)
+	}
+	verbs := make([]string, 0, len(p.methods))
+	for k := range p.methods {
+		verbs = append(verbs, k)
+	}
+	sort.Strings(verbs)
+	for _, k := range verbs {
+		fmt.Fprintf(b, "verb %s=", k)
+		verifMethod(b, p.methods[k])
+	}
+	if p.methodAll != nil {
+		b.WriteString("all=")
+		verifMethod(b, p.methodAll)
+	}
+	b.WriteString("}")
+}
